@@ -276,25 +276,28 @@ def run(ctx):
             ctx.failure("tasklist-raises", "PhononContributionTaskList raised %s: %s on all 21 keys, equal strains"
                         % (type(ex).__name__, ex), input=dict(keys="all", strain=[[1.0, 1.0, 1.0]]))
             break
-        v = {k: float(numpy.asarray(iso[c_(*k)])[1, 0]) for k in ALL_KEYS}
-        sc = abs(v[(1, 1)]) + abs(v[(1, 2)])
         ctx.case(dict(kind="isotropic", par=c["sp"].par, T=c["temps"]), nontrivial=True)
         ctx.count("isotropic-limit runs")
-        want = {}
-        for k in ALL_KEYS:
-            if k in ((1, 1), (2, 2), (3, 3)):
-                want[k] = v[(1, 1)]
-            elif k in ((1, 2), (1, 3), (2, 3)):
-                want[k] = v[(1, 2)]
-            elif k in ((4, 4), (5, 5), (6, 6)):
-                want[k] = (v[(1, 1)] - v[(1, 2)]) / 2
-            else:
-                want[k] = 0.0
-        for k in ALL_KEYS:
-            if abs(v[k] - want[k]) > 1e-9 * sc:
-                ctx.failure("isotropic-c%d%d" % k, "equal axial strains: c%d%d = %.10g, isotropy requires %.10g"
-                            % (k[0], k[1], v[k], want[k]), input=dict(spectrum=c["sp"].par, T=c["temps"][1]),
-                            expected=want[k], observed=v[k])
+        for tname, tab in (("isothermal", iso), ("adiabatic", adi)):
+            v = {k: float(numpy.asarray(tab[c_(*k)])[1, 0]) for k in ALL_KEYS}
+            sc = abs(v[(1, 1)]) + abs(v[(1, 2)])
+            # shear components are built from ISOTHERMAL dependencies in both tables
+            vi = {k: float(numpy.asarray(iso[c_(*k)])[1, 0]) for k in ALL_KEYS}
+            want = {}
+            for k in ALL_KEYS:
+                if k in ((1, 1), (2, 2), (3, 3)):
+                    want[k] = v[(1, 1)]
+                elif k in ((1, 2), (1, 3), (2, 3)):
+                    want[k] = v[(1, 2)]
+                elif k in ((4, 4), (5, 5), (6, 6)):
+                    want[k] = (vi[(1, 1)] - vi[(1, 2)]) / 2
+                else:
+                    want[k] = 0.0
+            for k in ALL_KEYS:
+                if abs(v[k] - want[k]) > 1e-9 * sc:
+                    ctx.failure("isotropic-c%d%d" % k, "equal axial strains (%s table): c%d%d = %.10g, isotropy requires %.10g"
+                                % (tname, k[0], k[1], v[k], want[k]), input=dict(spectrum=c["sp"].par, T=c["temps"][1]),
+                                expected=want[k], observed=v[k])
         # relabelling
         strain = [[rng.uniform(0.15, 0.55) for _ in range(3)]]
         try:
@@ -304,6 +307,7 @@ def run(ctx):
                         % (type(ex).__name__, ex), input=dict(keys="all", strain=strain))
             break
         base = {k: float(numpy.asarray(iso[c_(*k)])[1, 0]) for k in ALL_KEYS}
+        base_a = {k: float(numpy.asarray(adi[c_(*k)])[1, 0]) for k in ALL_KEYS}
         sc = max(abs(x) for x in base.values())
         for pi in AXES[1:]:
             s2 = [[0.0, 0.0, 0.0]]
@@ -314,11 +318,12 @@ def run(ctx):
             ctx.count("axis-relabelling runs")
             for k in ALL_KEYS:
                 k2 = relabel_key(k, pi)
-                got = float(numpy.asarray(iso2[c_(*k2)])[1, 0])
-                if abs(got - base[k]) > 1e-8 * sc:
-                    ctx.failure("relabel-c%d%d" % k, "relabelling axes %s: c%d%d of the relabelled crystal is %.10g, "
-                                "c%d%d of the original is %.10g" % (pi, k2[0], k2[1], got, k[0], k[1], base[k]),
-                                input=dict(pi=pi, strain=strain, spectrum=c["sp"].par), expected=base[k], observed=got)
+                for tname, t2, b0 in (("isothermal", iso2, base), ("adiabatic", adi2, base_a)):
+                    got = float(numpy.asarray(t2[c_(*k2)])[1, 0])
+                    if abs(got - b0[k]) > 1e-8 * sc:
+                        ctx.failure("relabel-c%d%d" % k, "relabelling axes %s (%s table): c%d%d of the relabelled crystal is "
+                                    "%.10g, c%d%d of the original is %.10g" % (pi, tname, k2[0], k2[1], got, k[0], k[1], b0[k]),
+                                    input=dict(pi=pi, strain=strain, spectrum=c["sp"].par), expected=b0[k], observed=got)
 
     # ---- targeted search: coinciding frames (equal axial strains) x many request orders -------------
     # (merged tasks are where a missing edge / wrong order can hide; each run is ~50 ms)
